@@ -130,11 +130,12 @@ theorem d30_witness :
   (prefix, scale) pairs are accepted, which scale the result carries, and that the other pairs are
   errors — for any value of the float-valued part. -/
 
-/-- accepted pairs: JD ∈ {TAI, UTC, ET, TDB} (ET/TDB give a TAI epoch: documented as approximate),
+/-- accepted pairs: JD ∈ {TAI, UTC, ET, TDB} (the result carries the written scale: since the repair of
+    `from_jde_et` / `from_jde_tdb` the Julian date is counted in ET / TDB themselves),
     MJD ∈ {TAI, UTC, GPST, GST, BDT}, SEC in every scale; anything else is an error, never another instant -/
 theorem numeric_forms_partial (bits : Nat) (dur : TS → Dur) (hf : finiteBits bits = true) :
     (∀ ts, numericEpoch 0 ts bits dur =
-        if ts = .ET ∨ ts = .TDB then .ok ⟨dur ts, .TAI⟩ else if ts = .TAI ∨ ts = .UTC then .ok ⟨dur ts, ts⟩ else .err) ∧
+        if ts = .ET ∨ ts = .TDB ∨ ts = .TAI ∨ ts = .UTC then .ok ⟨dur ts, ts⟩ else .err) ∧
     (∀ ts, numericEpoch 1 ts bits dur =
         if ts = .TAI ∨ ts = .UTC ∨ ts = .GPST ∨ ts = .BDT ∨ ts = .GST then .ok ⟨dur ts, ts⟩ else .err) ∧
     (∀ ts, numericEpoch 2 ts bits dur = .ok ⟨dur ts, ts⟩) := by
